@@ -608,3 +608,5 @@ mod tests {
         assert_eq!(guard_1.counter(), 2);
     }
 }
+
+#[cfg(p2panda_p2panda_verif)] #[path = "../verif_c17.rs"] mod verif_c17;
